@@ -26,6 +26,10 @@ BASE = [
     "CREATE TABLE t (a INT, b varchar(10), c Timestamp)\n",
     "SELECT a FROM t WHERE a IS NOT NULL and b = TRUE Or c in (1, 2)\n",
     "select a as A_b, t.Col from Sch.Tbl as t order BY 1 desc\n",
+    # quoted identifiers, literals and comments in TYPE position (user-defined / schema-qualified types)
+    "SELECT CAST(a AS \"MyType\"), CAST(b AS Int) FROM t\n",
+    "CREATE TABLE t (a \"MyType\", b \"Sch\".\"MoodEnum\", c varchar(10))\n",
+    "CREATE TABLE t (a double /* Foo */ precision, b Int -- Bar\n)\n",
 ]
 POLICIES = ["consistent", "upper", "lower", "capitalise", "pascal", "snake", "camel"]
 RULES = ["capitalisation", "CP01", "CP02", "CP03", "CP04", "CP05"]
@@ -89,11 +93,20 @@ def run_case(case):
             add("not_case_only", {"policy": case["p"], "length_changed": len(fixed) != len(text)}, {"fixed": fixed[:200]})
             continue
         toks, _ = fixfam.lex_text(lnt, text)
+        lf_tree_types = list(lf.tree.recursive_crawl("data_type")) if lf.tree is not None else []
         for t in toks:
             if t.is_meta or not t.raw:
                 continue
             if t.is_type(*PROTECTED) or t.is_comment or t.is_type("quoted_literal", "quoted_identifier"):
                 ss = t.pos_marker.source_slice
                 if fixed[ss] != text[ss]:
-                    add("protected_token_changed", {"type": t.get_type()}, {"token": t.raw, "now": fixed[ss], "fixed": fixed[:200]})
+                    in_type = False
+                    try:
+                        # structural feature: the protected token sits directly inside a data_type node
+                        for seg in lf_tree_types:
+                            if seg.pos_marker.source_slice.start <= ss.start and ss.stop <= seg.pos_marker.source_slice.stop:
+                                in_type = True
+                    except Exception:
+                        pass
+                    add("protected_token_changed", {"type": t.get_type(), "rule": case["r"], "inside_data_type": in_type}, {"token": t.raw, "now": fixed[ss], "fixed": fixed[:200]})
     return res
